@@ -123,4 +123,18 @@ def runHist (src : SupSource) (name : Option String) : Option Supported → List
     let p := connect src name st adv
     p.2 :: runHist src name p.1 rest
 
+/-! ### negotiation over the HOSTS of one session
+
+One Session, several hosts, each advertising its own SUPPORTED set (which may change between
+connections): a history is the list of connections made, each to some host `h` that advertises `adv`
+at that moment. `st` is what a SESSION-wide cache would carry (the refuted variant: the first
+SUPPORTED answer kept on the Session / ConnConfig and used for every later connection, to any host). -/
+
+def runHosts (src : SupSource) (name : Option String) :
+    Option Supported → List (Nat × Supported) → List (Nat × ConnObs)
+  | _, [] => []
+  | st, (h, adv) :: rest =>
+    let p := connect src name st adv
+    (h, p.2) :: runHosts src name p.1 rest
+
 end Compress
